@@ -44,23 +44,28 @@ func (check) Cases(tier string) int {
 const typeGroup = 4
 
 func (check) Rule() string {
-	return "one (type, pre-fill, configuration) triple per case. Type: derived from idx/4 (4 consecutive cases share it); 6 in 8 generated with reflect.StructOf (3-8 top-level fields, nesting depth <= 2; kinds bool, int/8/16/32/64, uint/8/16/32/64, float32/64, string, time.Duration, pointers to those, nested structs by value / by pointer / inline (inline, squash), []T and [N]T of primitives, [N]T (N <= 3) of structs (generated ones of primitives, or LibPlain with its unexported, ignored and embedded fields), of map[string]T and of []T, []struct, []*struct, map[string]T, map[string]*struct, map[string]struct; *ucfg.Config fields (pre-filled from a random object or list tree over a 4-key pool, or nil), config tags with and without rename, ignore, merge/replace/append/prepend on lists and *Config fields and -- 2 in 5 -- merge/replace/append/prepend on struct-typed fields (by value, by pointer, inline; merge twice as often as each other option, because it only shows against an outer policy), validate tags min/max/positive/nonzero on fields that exist before Unpack; the hand-written LibConn, LibLimits, LibPlain (unexported fields, an embedded unexported struct, ignored fields, InitDefaults unconditional / conditional / touching an unexported field, Validate method) and LibPort (primitive with InitDefaults) as ordinary fields by value and by pointer; the self-unpacking LibSelf (Unpack(*Config), rejects lo > hi itself after having stored), LibSelfV (Unpack(*Config), Validate method rejects), LibSelfAny (Unpack(interface{})) likewise; half of the generated types carry a second tag set under the key alt on 4 fields in 5: other name, ignore flag and merge policy drawn independently, the hand-written types carry a few alt tags too), 1 in 8 the hand-written LibTop, 1 in 8 one of the three self-unpacking types as the top-level target. Pre-fill: every field non-zero w.p. 2/3 (nil and empty slices/maps, nil pointers otherwise; validated fields always valid). Configuration: nested map[string]interface{} through NewFrom(PathSep(\".\")), every field path mentioned w.p. 1/2 (1 in 16 of those with an explicit null), numbers as int/int64/uint64/float64/decimal string, durations as string/seconds, ignored and unexported names mentioned w.p. 1/3 with arbitrary data, map settings over a 5-key pool shared with the pre-fill, *Config settings as object / list trees of the shape the field already holds over the key pool of the pre-fill (depth <= 3, primitives, lists of primitives, lists of objects). Every array element is pre-filled on its own and its setting mentions a part of it (a subset of the fields / keys, a list of another length). Success half: Unpack into a deep copy under each of none / AppendValues / PrependValues / ReplaceValues / ReplaceArrValues with the default struct tag; the same type is also unpacked under StructTag(alt) with a configuration drawn from the alt reading of the type (once at a random place among those five calls, the front included, once after them) and then under the default tag again; every result is compared field-path-wise with the model of the tag set in use. A deviation is re-run on a twin type (the same struct tags plus one meaningless key, values converted) to tell dependence on earlier calls from a wrong result. Failure half (under one of the five options and -- 1 in 3 -- under StructTag(alt), drawn per case): for every configurable field position in declaration order (nested, inline and pointee positions included) one fault at a time (up to two different ones per position: unparsable string, overflow, negative into unsigned, bool/object/list into primitive, string into struct/map, primitive into *Config, wrong array length, faulty list element / struct-list element / map value / element of a composite array (the elements before it are merged first), failing validate tag, failing Validate method) is grafted onto the configuration and the struct passed in is compared with its snapshot. Plus per case a top-level []int / []string target and a top-level map[string]int target under the drawn option. Non-trivial = the type has >= 3 configurable leaf fields, the configuration mentions >= 1 and leaves out >= 1 of them; distinct = distinct (type, pre-fill, configuration, drawn option)."
+	return "one (type, pre-fill, configuration) triple per case. Type: derived from idx/4 (4 consecutive cases share it); 6 in 8 generated with reflect.StructOf (3-8 top-level fields, nesting depth <= 2; kinds bool, int/8/16/32/64, uint/8/16/32/64, float32/64, string, time.Duration, pointers to those, nested structs by value / by pointer / inline (inline, squash), []T and [N]T of primitives, [N]T (N <= 3) of structs (generated ones of primitives, or LibPlain with its unexported, ignored and embedded fields), of map[string]T and of []T, []struct, []*struct, map[string]T, map[string]*struct, map[string]struct; *ucfg.Config fields (pre-filled from a random object or list tree over a 4-key pool, or nil), config tags with and without a name (half of the names lower-case ASCII, the others with leading / inner / only upper-case letters, with _ and -, with lower- and upper-case non-ASCII letters, with letters that have no case; Go field names F<n>, MaxF<n>, F\u00dc<n>, F_x<n>), ignore, merge/replace/append/prepend on lists, maps (1 in 3) and *Config fields and -- 2 in 5 -- merge/replace/append/prepend on struct-typed fields (by value, by pointer, inline; merge twice as often as each other option, because it only shows against an outer policy), validate tags min/max/positive/nonzero on fields that exist before Unpack; the hand-written LibConn, LibLimits, LibPlain (unexported fields, an embedded unexported struct, ignored fields, InitDefaults unconditional / conditional / touching an unexported field, Validate method) and the named primitives LibPort (constant InitDefaults), LibCondPort (conditional), LibNoopInt, LibNoopStr (InitDefaults doing nothing), the named list LibList and the named array LibArr (with a no-op InitDefaults), regexp.Regexp by value and by pointer, inline structs by pointer (nil or pre-filled), and fields no configuration mentions -- an interface type listing InitDefaults (nil, or holding a pointer whose InitDefaults changes nothing), ucfg.Config by value (zero or filled), the next pointer of the self-referential LibRing (nil, a chain, the node itself, a ring of two) -- as ordinary fields by value and by pointer; the self-unpacking LibSelf (Unpack(*Config), rejects lo > hi itself after having stored), LibSelfV (Unpack(*Config), Validate method rejects), LibSelfAny (Unpack(interface{})) likewise; half of the generated types carry a second tag set under the key alt on 4 fields in 5: other name, ignore flag and merge policy drawn independently, the hand-written types carry a few alt tags too), 1 in 8 the hand-written LibTop, 1 in 8 one of the three self-unpacking types as the top-level target, 1 in 64 LibRing (1 in 3 of those with the target itself as its next node). Pre-fill: every field non-zero w.p. 2/3 (nil and empty slices/maps, nil pointers otherwise; validated fields always valid). Configuration: nested map[string]interface{} through NewFrom(PathSep(\".\")), every field path mentioned w.p. 1/2 (1 in 16 of those with an explicit null), numbers as int/int64/uint64/float64/decimal string, durations as string/seconds, ignored and unexported names mentioned w.p. 1/3 with arbitrary data, map settings over a 5-key pool shared with the pre-fill, *Config settings as object / list trees of the shape the field already holds over the key pool of the pre-fill (depth <= 3, primitives, lists of primitives, lists of objects). Every array element is pre-filled on its own and its setting mentions a part of it (a subset of the fields / keys, a list of another length). Success half: Unpack into a deep copy under each of none / AppendValues / PrependValues / ReplaceValues / ReplaceArrValues with the default struct tag; the same type is also unpacked under StructTag(alt) with a configuration drawn from the alt reading of the type (once at a random place among those five calls, the front included, once after them) and then under the default tag again; every result is compared field-path-wise with the model of the tag set in use. A deviation is re-run on a twin type (the same struct tags plus one meaningless key, values converted) to tell dependence on earlier calls from a wrong result. Failure half (under one of the five options and -- 1 in 3 -- under StructTag(alt), drawn per case): for every configurable field position in declaration order (nested, inline and pointee positions included) one fault at a time (up to two different ones per position: unparsable string, overflow, negative into unsigned, bool/object/list into primitive, string into struct/map, primitive into *Config, wrong array length, faulty list element / struct-list element / map value / element of a composite array (the elements before it are merged first), failing validate tag, failing Validate method) is grafted onto the configuration and the struct passed in is compared with its snapshot. Plus per case a top-level []int / []string target and a top-level map[string]int target under the drawn option. Non-trivial = the type has >= 3 configurable leaf fields, the configuration mentions >= 1 and leaves out >= 1 of them; distinct = distinct (type, pre-fill, configuration, drawn option)."
 }
 
 func (check) Assumptions() []string {
 	return []string{
 		"active policy = the field's own tag option (merge = index-wise), else the tag option of the nearest enclosing struct-typed field (doc comment of Unpack: the tag options overwrite the global strategy 'for all sub-fields'; merge is taken to be a tag option like the other three: below a field tagged merge lists are merged index-wise again whatever the global option says), else the global option, else index-wise; ReplaceArrValues is modelled as replace for lists (its own doc comment says it applies to unpacking)",
 		"a *Config field the configuration mentions holds afterwards what the merge model of C01 (internal/model.Merge: union of dictionaries, lists per policy, replace drops the old dictionary) gives for (tree it held, setting, active policy), a nil field the setting itself; contents are observed through Unpack into a map and into a slice and compared in canonical form; the setting has the shape (object / list) of what the field holds; whether a mentioned *Config field keeps its identity is not compared, an unmentioned one must keep identity and contents",
-		"InitDefaults is modelled only where the doc comment states it: the top-level struct, struct-typed fields by value (also without a setting), pointer fields only when the configuration has a setting for them, primitives with InitDefaults; all InitDefaults of the hand-written types are idempotent, the primitive one is a constant, so neither the number of calls nor the value it is called on (pre-filled or zero) is pinned",
-		"an explicit null is 'no setting'; an empty object or empty list is never generated; null elements inside lists are never generated",
+		"InitDefaults is modelled only where the doc comment states it: the top-level struct, struct-typed fields by value (also without a setting), pointer fields only when the configuration has a setting for them, primitives with InitDefaults; it runs on top of the value the field holds ('as it was or as InitDefaults set it': a field InitDefaults does not assign stays as it was, for primitives like for structs and maps), never for lists and arrays (doc comment: not supported on them); all InitDefaults of the hand-written types are idempotent, so the number of calls is not pinned; whether InitDefaults of a value held in an interface field without a setting is called is not pinned (both outcomes satisfy 'as it was or as InitDefaults set it'): those values are ones InitDefaults does not change. Likewise a map type whose InitDefaults adds entries is not generated: whether a freshly made map carries them ('as InitDefaults set it') or not ('as it was') is the same disjunction",
+		"fields of kinds the configurations of this check never mention (interface types with methods, ucfg.Config by value, pointers of a type to itself) have to come out of every Unpack as they went in; a pointer into a ring is compared by identity only, because the ring may contain the target itself; a pre-filled value that contains itself is a pre-filled value like any other ('for all pre-filled values'): Unpack has to terminate on it",
+		"the name in a struct tag is the name of the setting exactly as written (only a field without a name in its tag is known by its lower-cased Go name); whether a setting spelled in another case is found as well is not generated",
+		"maps follow the active policy like lists do ('merging lists and maps according to the active policy'; ReplaceValues: 'all merging and unpacking operations ... replace old dictionaries and arrays'): under replace -- global, tag or inherited -- a mentioned map holds the new entries alone, under every other policy (arr-replace included: it concerns lists) the entries are merged key by key; struct-typed fields are not dictionaries in this sense, their unmentioned fields always stay",
+		"an inlined struct behind a nil pointer is treated like any other nil pointer field: allocated when the configuration has a non-null setting for one of its fields (those of structs inlined into it included), left nil otherwise; settings for ignored or unexported names do not count; a pre-filled inlined pointee is visited like a struct held by value whether anything of it is mentioned or not (InitDefaults of what it holds by value runs: 'as InitDefaults set it')",
+		"which ill-typed settings Unpack must reject is not this property's business (a list for a struct field, an object for a list field are silently skipped on this tree): injected faults that are not raised are only counted; a dotted tag name over an unresolvable reference (VarExp) is not generated",
+		"an explicit null is 'no setting'; an empty object or empty list is never generated; null elements inside lists and null entries of maps are never generated (see the next but one entry)",
 		"expected values of primitives come from the generator (value and its configuration spelling are drawn together); conversions proper are C03's business: only exact ones are used (floats are multiples of 1/4 or float64 literals into float64, durations whole or quarter seconds)",
 		"a list whose active policy replaces consists of the new values alone: an element of a replaced list of structs is the zero value with the settings of its position applied, nothing of the old element at that position survives (doc comment: 'replaced by the new values')",
-		"a null at a list position is never generated and what it does to a pre-filled slot is not compared: the statement does not pin it down. For a struct field a null is 'no setting' (the field is left alone), but the positions of a list can not be absent, and C01's merge statement lets a null in the merged-in list win over a primitive; so both 'slot untouched' ([nil,5] onto [1,2,3] = [1,5,3]) and 'slot takes the value a fresh unpack of the merged configuration gives' ([0,5,3], what this tree does) can be read into it",
+		"a null at a list position is never generated and what it does to a pre-filled slot is not compared: the statement does not pin it down. For a struct field a null is 'no setting' (the field is left alone), but the positions of a list can not be absent, and C01's merge statement lets a null in the merged-in list win over a primitive; so both 'slot untouched' ([nil,5] onto [1,2,3] = [1,5,3]) and 'slot takes the value a fresh unpack of the merged configuration gives' ([0,5,3], what this tree does) can be read into it; the same goes for a null entry of a map (m: {a: null} onto map[a:1] gives a:0 on this tree, a null struct field leaves the field alone)",
 		"StructTag(t) makes Unpack read names, ignore/inline flags and merge policies from the tag t alone (a field without that tag has its lower-cased name and no options), whatever tags the process used before; validate tags stay under their own key",
 		"the self-unpacking types of this package do, on success, what the library does for an ordinary struct with the same fields (null or absent: untouched), so the same model applies; which of their failures a library version reports is not compared, only that the struct passed in is unchanged afterwards",
-		"not compared: entries of a map the configuration does not mention when the active policy replaces; whether a mentioned pointer / map field keeps its identity; nil versus empty for mentioned lists; which error a failed Unpack returns and whether an injected fault is reported at all (counted as fault_not_raised)",
+		"not compared: whether a mentioned pointer / map field keeps its identity; nil versus empty for mentioned lists; which error a failed Unpack returns and whether an injected fault is reported at all (counted as fault_not_raised)",
 		"after a failed Unpack: nested struct values and arrays are compared recursively, pointer and map fields by identity only (contents excluded as in the statement), slices by length, nil-ness and -- primitive elements only -- element values",
-		"validate tags are only generated where the value exists before Unpack (top level, by-value and inline nesting) and pre-fills always pass them, because Unpack validates untouched fields too; struct elements of lists and maps hold primitives only; map[string]struct entries that already exist are never touched (panic on this tree: C07's finding); inline maps, inline pointers, pointers inside lists/maps, lists of lists are not generated (C06/C07); lists inside the elements of an array follow the policy in force for the array field",
+		"validate tags are only generated where the value exists before Unpack (top level, by-value and inline nesting) and pre-fills always pass them, because Unpack validates untouched fields too; struct elements of lists and maps hold primitives only; map[string]struct entries that already exist are never touched (panic on this tree: C07's finding); inline maps, pointers inside lists/maps, lists of lists are not generated (C06/C07); lists inside the elements of an array follow the policy in force for the array field",
 	}
 }
 
@@ -405,6 +410,9 @@ type runner struct {
 	cfgs    map[uintptr]*model.Node // the trees of the pre-filled *Config fields of master
 	gopt    globalOpt
 	verbose bool
+	lastExp reflect.Value // what the model expected of the last successful Unpack
+	// recheck compares another result with the model of the last successful Unpack
+	recheck func(got reflect.Value, twin map[uintptr]uintptr) bool
 }
 
 // fresh returns a pointer to a deep copy of the pre-fill and the identity map.
@@ -428,10 +436,73 @@ func (rn *runner) unpack(goCfg interface{}, target reflect.Value, ctx func() str
 	panicked, pv, where := harness.Safe(func() { err = c.Unpack(target.Interface(), rn.options()...) })
 	rn.res.Eval(1)
 	if panicked {
-		rn.res.Violate("panic:Unpack", "panic %q at %s; %s", pv, where, ctx())
+		// classified by the innermost function of the library on the stack
+		site := where
+		if i := strings.Index(site, "<"); i >= 0 {
+			site = site[:i]
+		}
+		site = strings.TrimPrefix(site, "go-ucfg.")
+		rn.res.Violate("panic:Unpack:"+site, "panic %q at %s; %s", pv, where, ctx())
 		return nil, false
 	}
 	return err, true
+}
+
+// suspects names what the type and the pre-filled value hold of the shapes an
+// Unpack is known to stumble over without any setting for them.
+func suspects(st *stype, pre reflect.Value, everywhere bool, out map[string]bool) {
+	for _, f := range st.fields {
+		if f.unexported || f.ignore {
+			continue
+		}
+		fpre := sub(pre, f.idx)
+		switch {
+		case f.kind == kUntouched && f.flavour == "config-by-value":
+			out["config-by-value-field"] = true
+		case f.kind == kArrayPrim && implementsPtr(f.typ, tIniter):
+			out["array-type-with-initdefaults"] = true
+		case f.kind == kPtrStruct && f.inline && (!fpre.IsValid() || fpre.IsNil()):
+			out["nil-inline-pointer"] = true
+		case f.kind == kStruct, f.kind == kPtrStruct && (everywhere || fpre.IsValid() && !fpre.IsNil()):
+			suspects(f.sub, deref(fpre), everywhere, out)
+		}
+	}
+}
+
+// rejectionClass: a configuration that is valid by construction was rejected;
+// is even the empty configuration rejected for this type and pre-filled value?
+func (rn *runner) rejectionClass() string {
+	c, cerr := ucfg.NewFrom(map[string]interface{}{})
+	if cerr != nil {
+		return ""
+	}
+	target, _ := rn.fresh()
+	var err error
+	panicked, _, _ := harness.Safe(func() { err = c.Unpack(target.Interface(), rn.options()...) })
+	rn.res.Eval(1)
+	if panicked {
+		return ""
+	}
+	// the empty configuration passes: the shapes may sit behind a pointer
+	// that is only followed when the configuration mentions it
+	how, everywhere := ":the-empty-configuration-fails-too:", false
+	if err == nil {
+		how, everywhere = ":fails-when-a-struct-behind-a-pointer-is-mentioned:", true
+	}
+	set := map[string]bool{}
+	suspects(rn.top, rn.master, everywhere, set)
+	if everywhere && len(set) == 0 {
+		return ""
+	}
+	var names []string
+	for n := range set {
+		names = append(names, n)
+	}
+	sort.Strings(names)
+	if len(names) == 0 {
+		names = []string{"other"}
+	}
+	return how + strings.Join(names, "+")
 }
 
 // options: the global merge option and -- for the second tag set -- StructTag.
@@ -592,15 +663,76 @@ func (rn *runner) success(cfg *cval) {
 		}
 		return
 	}
+	if rn.lowerCaseExplains(goCfg) {
+		seen := map[string]bool{}
+		for _, v := range tmp.Violations {
+			class := v.Sig
+			if i := strings.Index(class, ":"); i >= 0 {
+				class = class[:i]
+			}
+			if seen[class] {
+				continue
+			}
+			seen[class] = true
+			out.Violate("setting-looked-up-under-lower-cased-name:"+class,
+				"the same configuration with all its names in lower case gives exactly what the model expects of the original; deviation: %s", v.Detail)
+		}
+		return
+	}
 	for _, v := range tmp.Violations {
 		out.Violate(v.Sig, "%s", v.Detail)
 	}
+}
+
+// lowerKeys returns data with every map key in lower case.
+func lowerKeys(v interface{}) (interface{}, bool) {
+	changed := false
+	switch x := v.(type) {
+	case map[string]interface{}:
+		m := make(map[string]interface{}, len(x))
+		for k, e := range x {
+			le, ch := lowerKeys(e)
+			lk := strings.ToLower(k)
+			changed = changed || ch || lk != k
+			m[lk] = le
+		}
+		return m, changed
+	case []interface{}:
+		l := make([]interface{}, len(x))
+		for i, e := range x {
+			var ch bool
+			l[i], ch = lowerKeys(e)
+			changed = changed || ch
+		}
+		return l, changed
+	}
+	return v, false
+}
+
+// lowerCaseExplains: does the configuration spelled in lower case produce
+// what the model expects of the original one? Then the names of the struct
+// tags were not used as they are written.
+func (rn *runner) lowerCaseExplains(goCfg interface{}) bool {
+	low, changed := lowerKeys(goCfg)
+	if !changed || !rn.lastExp.IsValid() {
+		return false
+	}
+	c, cerr := ucfg.NewFrom(low, ucfg.PathSep("."))
+	if cerr != nil {
+		return false
+	}
+	target, twin := rn.fresh()
+	var err error
+	panicked, _, _ := harness.Safe(func() { err = c.Unpack(target.Interface(), rn.options()...) })
+	rn.res.Eval(1)
+	return !panicked && err == nil && rn.recheck(target.Elem(), twin)
 }
 
 // success1: got is the value after a successful Unpack; failed: Unpack
 // returned an error for a configuration that is valid by construction.
 func (rn *runner) success1(cfg *cval) (got reflect.Value, failed bool) {
 	res := rn.res
+	rn.lastExp, rn.recheck = reflect.Value{}, nil
 	goCfg := cfg.toGo()
 	ctx := rn.context(goCfg)
 	target, twin := rn.fresh()
@@ -614,6 +746,8 @@ func (rn *runner) success1(cfg *cval) (got reflect.Value, failed bool) {
 		t2, _ := rn.fresh()
 		if err2, ok2 := rn.unpack(stripNoise(cfg).toGo(), t2, ctx); ok2 && err2 == nil {
 			sig = "setting-for-ignored-or-unexported-field-consulted"
+		} else {
+			sig += rn.rejectionClass()
 		}
 		res.Violate(sig, "Unpack returned %q; %s", err, ctx())
 		rn.checkAtomic(target.Elem(), twin, "unexpected-error", -1, err, ctx)
@@ -623,6 +757,13 @@ func (rn *runner) success1(cfg *cval) (got reflect.Value, failed bool) {
 	exp.Elem().Set(deepCopy(rn.master))
 	m := &modeler{cfgs: rn.cfgs, cfgExp: map[*field]*model.Node{}}
 	m.applyStruct(rn.top, exp.Elem(), cfg, rn.gopt.pc)
+	rn.lastExp = exp.Elem()
+	rn.recheck = func(got reflect.Value, twin map[uintptr]uintptr) bool {
+		t := harness.NewR(0)
+		k2 := &comparer{res: t, twin: twin, cfgs: rn.cfgs, cfgExp: m.cfgExp, ctx: func() string { return "" }}
+		k2.cmpStruct(rn.top, rn.master, exp.Elem(), got, cfg, rn.gopt.pc, "top", "")
+		return len(t.Violations) == 0
+	}
 	k := &comparer{res: res, twin: twin, cfgs: rn.cfgs, cfgExp: m.cfgExp, ctx: ctx}
 	k.cmpStruct(rn.top, rn.master, exp.Elem(), target.Elem(), cfg, rn.gopt.pc, "top", "")
 	if rn.verbose {
@@ -724,6 +865,20 @@ func (rn *runner) monitors(st *stype, where string) {
 	}
 }
 
+// ringCyclic: does following the next pointers from p (a *LibRing) come back
+// to a node already seen?
+func ringCyclic(p reflect.Value) bool {
+	seen := map[uintptr]bool{}
+	for i := 0; i < 8 && !p.IsNil(); i++ {
+		if seen[p.Pointer()] {
+			return true
+		}
+		seen[p.Pointer()] = true
+		p = p.Elem().FieldByName("Next")
+	}
+	return false
+}
+
 // tagDifferences records in what the two tag sets of the type differ.
 func tagDifferences(res *harness.R, a, b *stype) {
 	for i, fa := range a.fields {
@@ -774,13 +929,51 @@ func (rn *runner) listMonitors(st *stype, c *cval, pre reflect.Value, pc polCtx)
 	}
 	for _, f := range st.fields {
 		cv := c.fields[f]
-		if f.unexported || f.ignore || cv.absent() {
+		if f.unexported || f.ignore {
 			continue
 		}
-		fpc := f.policy(pc)
 		fpre := sub(pre, f.idx)
+		filled := "zero"
+		if fpre.IsValid() && !fpre.IsZero() {
+			filled = "filled"
+		}
+		if cv.absent() || f.kind == kPtrStruct && f.inline && cv.real == 0 {
+			// what an absent setting meets
+			switch {
+			case f.kind == kUntouched:
+				rn.res.Ev("never_mentioned_fields_per_unpack", 1)
+				rn.res.SetAdd("never_mentioned_field", f.flavour+":"+filled)
+				if f.flavour == "recursive-pointer" && filled == "filled" && ringCyclic(fpre) {
+					rn.res.Ev("prefilled_values_containing_themselves_per_unpack", 1)
+				}
+			case filled == "filled" && implementsPtr(f.typ, tIniter) && f.kind != kStruct:
+				rn.res.Ev("absent_filled_fields_of_types_with_initdefaults_per_unpack", 1)
+				rn.res.SetAdd("absent_filled_field_of_type_with_initdefaults", f.shape()+":"+f.typ.String())
+			case f.kind == kPrim && f.prim == tRegexp && filled == "filled":
+				rn.res.Ev("absent_filled_regexp_by_value_per_unpack", 1)
+			case f.kind == kPtrStruct && f.inline:
+				rn.res.SetAdd("inline_pointer", "absent:"+filled)
+			}
+			continue
+		}
+		if ns := nameStyle(f.name); !f.inline {
+			rn.res.SetAdd("mentioned_name_style", ns)
+			if ns == "ascii-upper" || ns == "non-ascii-upper" {
+				rn.res.Ev("settings_under_names_with_upper_case_per_unpack", 1)
+			}
+		}
+		fpc := f.policy(pc)
 		switch f.kind {
+		case kMapPrim, kMapPtrStruct, kMapStruct:
+			rn.res.SetAdd("map_policy", fpc.src+":"+fpc.pol+":"+f.shape()+":"+filled)
+			if fpc.pol == "replace" && filled == "filled" {
+				rn.res.Ev("maps_replaced_onto_filled_per_unpack", 1)
+			}
 		case kStruct, kPtrStruct:
+			if f.kind == kPtrStruct && f.inline {
+				rn.res.SetAdd("inline_pointer", "mentioned:"+filled)
+				rn.res.Ev("inline_pointer_structs_mentioned_per_unpack", 1)
+			}
 			rn.listMonitors(f.sub, cv, deref(fpre), fpc.below())
 		case kSlicePrim, kSliceStruct:
 			state := "onto-filled"
@@ -840,6 +1033,9 @@ func (check) Run(seed int64, tier string, idx int, verbose bool) harness.Result 
 	g := &vgen{r: r, cfgs: rn.cfgs}
 	rn.master = reflect.New(top.typ).Elem()
 	g.fillStruct(top, rn.master)
+	if typ == tLibRing && r.Intn(3) == 0 {
+		rn.master.FieldByName("Next").Set(rn.master.Addr()) // the target itself is its next node
+	}
 	var stats, statsAlt cfgStats
 	cfg := g.cfgStruct(top, rn.master, true, &stats)
 	cfgAlt := g.cfgStruct(topAlt, rn.master, true, &statsAlt)
@@ -848,6 +1044,8 @@ func (check) Run(seed int64, tier string, idx int, verbose bool) harness.Result 
 	switch {
 	case top.typ == tLibTop:
 		res.SetAdd("top_level", "hand-written")
+	case typ == tLibRing:
+		res.SetAdd("top_level", "self-referential:LibRing")
 	case top.selfUnpacks:
 		res.SetAdd("top_level", "self-unpacking:"+top.typ.Name())
 	default:
@@ -1056,7 +1254,14 @@ func topLevelMap(res *harness.R, r *rand.Rand, gopt globalOpt) {
 			res.Violate("mentioned-field-wrong:toplevel-map", "%s: entry %q is %s; map now %s", ctx, k, render(e.want), render(got))
 		}
 	}
-	if replaces(gopt.pc) {
+	if gopt.pc.pol == "replace" {
+		// old dictionaries are replaced: the map holds the new entries alone
+		for _, k := range got.MapKeys() {
+			if _, mentioned := cv.keys[k.String()]; !mentioned {
+				res.Violate("map-not-replaced-under-replace-policy:global:toplevel-map", "%s: entry %q is still there; map now %s", ctx, k.String(), render(got))
+				break
+			}
+		}
 		return
 	}
 	if !pre.IsNil() {
